@@ -50,8 +50,8 @@ CHECKS = {
    ref="4/C12"),
  "C13": dict(cat="exploration", engine="E4-latx + E1-schedx",
    technique="exhaustive boundary-lattice enumeration of headers and uncle sets against a reference rule checker with a literal difficulty table; batch verification compared with one-by-one verification",
-   text="VerifyHeader over 5 network schedules x parent heights around every fork x parent difficulty x time delta x every single field deviation (and pairs on a reduced context set) inside a synctest bubble (fixed clock for the 15 s rule); VerifyUncles over all ordered candidate lists of length <= 3 from a real block tree in the 2-uncle and 1-uncle epochs; VerifyHeaders on 714 linked batches (n <= 4, first invalid header at every position, pairs, orphans) against sequential verification under several GOMAXPROCS values.",
-   note="refhdr/refdiff are transcribed from the property text and the pinned constants; the batch part runs free (schedule enumeration of the worker pipeline: see DESIGN status).",
+   text="VerifyHeader over 5 network schedules x parent heights around every fork x parent difficulty x time delta x every single field deviation (and pairs on a reduced context set) inside a synctest bubble (fixed clock for the 15 s rule); VerifyUncles over all ordered candidate lists of length <= 3 from a real block tree in the 2-uncle and 1-uncle epochs; VerifyHeaders on 714 linked batches (n <= 4, first invalid header at every position, pairs, orphans) against sequential verification free-running under several GOMAXPROCS values, and - under the controlled scheduler on an instrumented copy of consensus/aquahash (channel operations and the coordinator select as scheduling points, select tie-breaks enumerated) - every schedule up to 2 (3) preemptions of batches with n <= 3 (4) and 1-2 (3) workers with the first invalid header at every position: results in input order and equal to one-by-one verification, no deadlock, no leak.",
+   note="refhdr/refdiff are transcribed from the property text and the pinned constants; the early-abort path of VerifyHeaders is not explored under the scheduler (see DESIGN).",
    ref="4/C13"),
  "C14": dict(cat="exploration", engine="E4-latx",
    technique="exhaustive enumeration of nonces, straddling difficulties, mix-digest alterations, fork heights and sealer configurations against an independent PoW reference (x/crypto argon2, own ethash and RLP)",
@@ -68,6 +68,11 @@ CHECKS = {
    text="7 keys x 4-7 passphrases x v3-scrypt / v3-pbkdf2 / v1 formats composed by the harness with fixed salt and IV plus the repository's vectors; round trips through EncryptKey/DecryptKey and the KeyStore API; every passphrase at edit distance 1; every byte of the file (hex digits, numbers, names, structure) altered by each alternative symbol, through DecryptKey, KeyStore.Unlock and KeyStore.Import: error or the original key and address, never another key, another address or a panic.",
    note="Passphrases with the same HMAC key (trailing NUL) are the same credential by RFC 2104. One open finding: files without an address member cannot detect a changed IV (format limitation).",
    ref="4/C20"),
+ "C17": dict(cat="exploration", engine="E4-latx",
+   technique="exhaustive truncation / single-byte alteration / boundary-size enumeration of discovery datagrams, RLPx handshakes and frames and sub-protocol messages against reference peers and a reference framer",
+   text="Discovery: 8 base packets in both dialects truncated at every length (re-signed), every byte altered (as sent / re-hashed / re-signed), zero buffers, type sweeps, in four protocol states, through decodePacket and handlePacket under a virtual clock. RLPx: all message sequences <= 3 over a code x size x snappy lattice, 16 MiB boundaries, every position of a 3-message stream altered / dropped / duplicated / truncated, crafted correctly-MACed malformed frames; handshake auth/ack truncated at every length and altered at every byte (wire and plaintext) against a reference peer for both formats. Sub-protocol: every code x all short RLP strings, 23 valid messages with all truncations and alterations, the header-query lattice and size limits through the real ProtocolManager in worker subprocesses. Oracles: delivered == authenticated or error, no panic / wedge, bounded allocation and answers.",
+   note="Fixed keys, empty discovery table, write-ahead case log for crashes in background goroutines; in-package export seams under inpkg/p2p, inpkg/p2p/discover, inpkg/aqua.",
+   ref="4/C17"),
 }
 NOT_YET = {}
 def main():
